@@ -68,8 +68,9 @@ def c13(tier):
         if tk.isspace():
             continue
         doc = "".join(toks[:i]).encode() + b"'\xff\xfe'" + "".join(toks[i + 1:]).encode()
-        corners.append(("grpc_syntax" if nbad % 3 else "rest_syntax", {"bytes": "progx:" + doc.hex()}))
-        nbad += 1
+        corners.append(("grpc_syntax", {"bytes": "progx:" + doc.hex()}))
+        corners.append(("rest_syntax", {"bytes": "progx:" + doc.hex()}))
+        nbad += 2
     ck.extra["opl_documents_sent_to_syntax_check"] = len(pick) + nbad
     for ep, f in corners:
         reqs.append({"i": len(reqs), "ep": ep, "fields": f, "readonly": ep not in ("rest_create", "rest_delete", "rest_patch", "grpc_transact", "grpc_delete", "rest_wrong_route")})
